@@ -174,7 +174,41 @@ func cmdNpm(args []string) error {
 	}
 	defer w.Close()
 	ctx := context.Background()
+	// VERIF_STEPS=<file>: also record the resolver's own account of every step (hook npm.VerifStep, build tag verif), one "start"
+	// event with the universe per resolution followed by the events the resolver emits.
+	var steps *ndWriter
+	type stepEv struct {
+		Ev       string `json:"ev"`
+		Universe []uPkg `json:"universe,omitempty"`
+		Name     string `json:"name"`
+		V        int    `json:"v"`
+		R        int    `json:"r"`
+		Alias    string `json:"alias"`
+		Outcome  string `json:"outcome"`
+	}
+	var (
+		stepBuf []stepEv
+		stepGen int
+	)
+	if f := os.Getenv("VERIF_STEPS"); f != "" {
+		var err error
+		if steps, err = newNDWriter(f); err != nil {
+			return err
+		}
+		defer steps.Close()
+	}
 	for _, c := range cases {
+		if steps != nil {
+			stepGen++
+			gen := stepGen
+			stepBuf = []stepEv{{Ev: "start", Universe: c.Universe}}
+			npm.VerifStep = func(ev, name, ver, req, alias, outcome string) {
+				if gen != stepGen {
+					return // an abandoned resolution still running
+				}
+				stepBuf = append(stepBuf, stepEv{Ev: ev, Name: name, V: vidx[ver], R: ridx[req], Alias: alias, Outcome: outcome})
+			}
+		}
 		o := npmObs{Universe: c.Universe, Root: c.Root, Graph: nGraph{Nodes: []nNode{}, Edges: []nEdge{}}, Tree: []nTree{}, Model: c.Model}
 		lc := loadNpmUniverse(c, tb)
 		var tree *npm.VerifNode
@@ -182,6 +216,15 @@ func cmdNpm(args []string) error {
 		g, err := guarded(func() (*resolve.Graph, error) {
 			return npm.NewResolver(lc).Resolve(ctx, resolve.VersionKey{PackageKey: resolve.PackageKey{System: resolve.NPM, Name: c.Root.Name}, VersionType: resolve.Concrete, Version: tb.Versions[c.Root.V-1]})
 		})
+		if steps != nil {
+			npm.VerifStep = nil
+			stepGen++
+			for i := range stepBuf {
+				if e := steps.Write(&stepBuf[i]); e != nil {
+					return e
+				}
+			}
+		}
 		npm.VerifTree = nil
 		if err != nil {
 			o.Err = err.Error()
